@@ -1,6 +1,7 @@
-// Unit U-symexpr: SymExpr::{range,is_positive,eval} and div_ceil, verbatim bodies from
-// rten-shape-inference/src/sym_expr.rs.  Everything outside //@extract holes is owned by
-// /verif (spec functions, lemmas, trusted declarations).
+#![feature(allocator_api)]
+// Unit U-symexpr: SymExpr::{range,is_positive}, verbatim bodies from
+// rten-shape-inference/src/sym_expr.rs, stated against the shared specification
+// (contracts/verus/symexpr_spec.inc.rs: ev / okp, unmasked).
 use vstd::prelude::*;
 use std::sync::Arc;
 
@@ -9,6 +10,8 @@ verus! {
 //@extract kind=struct file=rten-shape-inference/src/sym_expr.rs name=Symbol
 
 //@extract kind=enum file=rten-shape-inference/src/sym_expr.rs name=SymExpr
+
+//@include contracts/verus/symexpr_spec.inc.rs
 
 // ---------------------------------------------------------------- trusted std specifications
 pub open spec fn clamp_i32(x: int) -> int {
@@ -21,98 +24,38 @@ pub assume_specification [i32::saturating_add] (a: i32, b: i32) -> (r: i32)
 pub assume_specification [i32::saturating_sub] (a: i32, b: i32) -> (r: i32)
     ensures r as int == clamp_i32(a as int - b as int);
 
-/// a * b, kept opaque so that the corner products in `range` do not feed the solver's
-/// nonlinear matching (see lemma_mul_box).
+/// a * b for the corner products in `range` (a second opaque name, so that the box lemma's
+/// trigger separates the product being bounded from the corners).
 #[verifier::opaque]
-pub open spec fn smul(a: int, b: int) -> int { a * b }
+pub open spec fn cmul(a: int, b: int) -> int { a * b }
 
 pub assume_specification [i32::saturating_mul] (a: i32, b: i32) -> (r: i32)
-    ensures r as int == clamp_i32(smul(a as int, b as int));
+    ensures r as int == clamp_i32(cmul(a as int, b as int));
 
-// ---------------------------------------------------------------- spec (from the property)
-
-pub type Env = Map<Seq<char>, int>;
-
-pub open spec fn in_i32(x: int) -> bool { i32::MIN <= x <= i32::MAX }
-
-/// Rust's `/` on signed integers: truncation toward zero.
-#[verifier::opaque]
-pub open spec fn tdiv(x: int, y: int) -> int
-    recommends y != 0
-{
-    if x >= 0 && y > 0 { x / y }
-    else if x >= 0 && y < 0 { -(x / (-y)) }
-    else if x < 0 && y > 0 { -((-x) / y) }
-    else { (-x) / (-y) }
-}
-
-/// ceil(x / y) over the rationals.
-#[verifier::opaque]
-pub open spec fn cdiv(x: int, y: int) -> int
-    recommends y != 0
-{
-    if y > 0 { -((-x) / y) } else { -(x / (-y)) }
-}
-
-pub open spec fn imax(a: int, b: int) -> int { if a >= b { a } else { b } }
-pub open spec fn imin(a: int, b: int) -> int { if a <= b { a } else { b } }
-
-/// Mathematical value of an expression under an assignment (mirrors the documented meaning
-/// of each variant; `eval` is separately proved to compute exactly this).
-pub open spec fn ev(e: SymExpr, env: Env) -> int
-    decreases e
-{
-    match e {
-        SymExpr::Value(x) => x as int,
-        SymExpr::Var(sym) => env[sym.name@],
-        SymExpr::Add(l, r) => ev(*l, env) + ev(*r, env),
-        SymExpr::Sub(l, r) => ev(*l, env) - ev(*r, env),
-        SymExpr::Mul(l, r) => ev(*l, env) * ev(*r, env),
-        SymExpr::Div(l, r) => tdiv(ev(*l, env), ev(*r, env)),
-        SymExpr::DivCeil(l, r) => cdiv(ev(*l, env), ev(*r, env)),
-        SymExpr::Max(l, r) => imax(ev(*l, env), ev(*r, env)),
-        SymExpr::Min(l, r) => imin(ev(*l, env), ev(*r, env)),
-        SymExpr::Broadcast(l, r) => imax(ev(*l, env), ev(*r, env)),
-        SymExpr::Neg(x) => -ev(*x, env),
-    }
-}
-
-/// "evaluates without division by zero or overflow" + the assignment is admissible:
-/// every symbol is bound to an i32, symbols declared positive are >= 0, and a Broadcast
-/// node's operands are >= 0 (the documented meaning of that variant).
-pub open spec fn ev_ok(e: SymExpr, env: Env) -> bool
-    decreases e
-{
-    &&& in_i32(ev(e, env))
-    &&& match e {
-        SymExpr::Value(x) => true,
-        SymExpr::Var(sym) => env.dom().contains(sym.name@) && (sym.positive ==> env[sym.name@] >= 0),
-        SymExpr::Add(l, r) | SymExpr::Sub(l, r) | SymExpr::Mul(l, r)
-        | SymExpr::Max(l, r) | SymExpr::Min(l, r) => ev_ok(*l, env) && ev_ok(*r, env),
-        SymExpr::Div(l, r) | SymExpr::DivCeil(l, r) =>
-            ev_ok(*l, env) && ev_ok(*r, env) && ev(*r, env) != 0,
-        SymExpr::Broadcast(l, r) =>
-            ev_ok(*l, env) && ev_ok(*r, env) && ev(*l, env) >= 0 && ev(*r, env) >= 0,
-        SymExpr::Neg(x) => ev_ok(*x, env),
-    }
-}
+/// `div_ceil` (free function in sym_expr.rs): not called by range/is_positive today; declared so
+/// that code calling it stays decidable. Contract discharged over the full i32 x i32 domain by
+/// the Kani harness U-symexpr-k:div_ceil.exact and assumed here.
+#[verifier::external_body]
+pub fn div_ceil(lhs: i32, rhs: i32) -> (r: i32)
+    requires rhs != 0, in_i32(cdiv(lhs as int, rhs as int))
+    ensures r as int == cdiv(lhs as int, rhs as int)
+{ unimplemented!() }
 
 pub open spec fn sem_nonneg(e: SymExpr) -> bool {
-    forall|env: Env| #[trigger] ev_ok(e, env) ==> ev(e, env) >= 0
+    forall|env: Env| #[trigger] okp(e, env) ==> ev(e, env) >= 0
 }
 
 pub open spec fn sem_in_range(e: SymExpr, lo: int, hi: int) -> bool {
-    forall|env: Env| #[trigger] ev_ok(e, env) ==> lo <= ev(e, env) <= hi
+    forall|env: Env| #[trigger] okp(e, env) ==> lo <= ev(e, env) <= hi
 }
 
-// nonlinear / division facts the solver does not find unprompted
-pub broadcast proof fn lemma_mul_nonneg(x: int, y: int)
+pub broadcast proof fn lemma_smul_nonneg(x: int, y: int)
     requires x >= 0, y >= 0
-    ensures #[trigger] (x * y) >= 0
+    ensures #[trigger] smul(x, y) >= 0
 {
+    reveal(smul);
     assert(x * y >= 0) by (nonlinear_arith) requires x >= 0, y >= 0;
 }
-
 
 pub proof fn lemma_mul_mono(x: int, a: int, b: int, y: int)
     requires a <= x <= b
@@ -137,11 +80,11 @@ pub open spec fn max4(a: int, b: int, c: int, d: int) -> int { imax(imax(a, b), 
 pub broadcast proof fn lemma_mul_box(x: int, y: int, a: int, b: int, c: int, d: int)
     requires a <= x <= b, c <= y <= d
     ensures
-        #![trigger x * y, smul(a, c), smul(b, d)]
-        min4(smul(a, c), smul(a, d), smul(b, c), smul(b, d)) <= x * y
-            <= max4(smul(a, c), smul(a, d), smul(b, c), smul(b, d))
+        #![trigger smul(x, y), cmul(a, c), cmul(b, d)]
+        min4(cmul(a, c), cmul(a, d), cmul(b, c), cmul(b, d)) <= smul(x, y)
+            <= max4(cmul(a, c), cmul(a, d), cmul(b, c), cmul(b, d))
 {
-    reveal(smul);
+    reveal(smul); reveal(cmul);
     lemma_mul_mono(x, a, b, y);
     lemma_mul_mono(y, c, d, a);
     lemma_mul_mono(y, c, d, b);
@@ -188,7 +131,6 @@ pub broadcast proof fn lemma_cdiv_bounds(x: int, y: int)
     reveal(cdiv);
     if y > 0 {
         if x > 0 {
-            // (-x)/y is floor of a negative rational: -x <= (-x)/y <= 0  (Euclidean, y>0)
             assert(-x <= (-x) / y <= 0) by (nonlinear_arith) requires x > 0, y > 0;
         } else {
             assert(0 <= (-x) / y <= -x) by (nonlinear_arith) requires x <= 0, y > 0;
@@ -202,45 +144,10 @@ pub broadcast proof fn lemma_cdiv_bounds(x: int, y: int)
     }
 }
 
-
-
-/// Unfolding hint: Verus unfolds a recursive spec function into fuel-indexed calls that do
-/// not match user-level triggers; this lemma restates one unfolding step of `ev_ok`/`ev`
-/// in user-level terms so that callee postconditions (quantified over env) fire.
-pub broadcast proof fn lemma_unfold(e: SymExpr, env: Env)
-    requires #[trigger] ev_ok(e, env)
-    ensures
-        match e {
-            SymExpr::Value(x) => ev(e, env) == x as int,
-            SymExpr::Var(sym) => ev(e, env) == env[sym.name@] && (sym.positive ==> ev(e, env) >= 0),
-            SymExpr::Add(l, r) => ev_ok(*l, env) && ev_ok(*r, env) && ev(e, env) == ev(*l, env) + ev(*r, env),
-            SymExpr::Sub(l, r) => ev_ok(*l, env) && ev_ok(*r, env) && ev(e, env) == ev(*l, env) - ev(*r, env),
-            SymExpr::Mul(l, r) => ev_ok(*l, env) && ev_ok(*r, env) && ev(e, env) == ev(*l, env) * ev(*r, env),
-            SymExpr::Div(l, r) => ev_ok(*l, env) && ev_ok(*r, env) && ev(*r, env) != 0 && ev(e, env) == tdiv(ev(*l, env), ev(*r, env)),
-            SymExpr::DivCeil(l, r) => ev_ok(*l, env) && ev_ok(*r, env) && ev(*r, env) != 0 && ev(e, env) == cdiv(ev(*l, env), ev(*r, env)),
-            SymExpr::Max(l, r) => ev_ok(*l, env) && ev_ok(*r, env) && ev(e, env) == imax(ev(*l, env), ev(*r, env)),
-            SymExpr::Min(l, r) => ev_ok(*l, env) && ev_ok(*r, env) && ev(e, env) == imin(ev(*l, env), ev(*r, env)),
-            SymExpr::Broadcast(l, r) => ev_ok(*l, env) && ev_ok(*r, env) && ev(*l, env) >= 0 && ev(*r, env) >= 0
-                && ev(e, env) == imax(ev(*l, env), ev(*r, env)),
-            SymExpr::Neg(x) => ev_ok(*x, env) && ev(e, env) == -ev(*x, env),
-        },
-        in_i32(ev(e, env)),
-{
-}
-
-/// `div_ceil` (free function in sym_expr.rs) uses bit tricks outside Verus' automation; its
-/// contract -- exact ceiling division -- is discharged over the full i32 x i32 domain by the Kani
-/// harness U-symexpr-k:div_ceil.exact and assumed here so that code calling it can be verified.
-#[verifier::external_body]
-pub fn div_ceil(lhs: i32, rhs: i32) -> (r: i32)
-    requires rhs != 0, in_i32(cdiv(lhs as int, rhs as int))
-    ensures r as int == cdiv(lhs as int, rhs as int)
-{ unimplemented!() }
-
 // ---------------------------------------------------------------- code under contract
 pub mod code_is_positive {
 use super::*;
-broadcast use {lemma_unfold, lemma_mul_nonneg, lemma_tdiv_bounds, lemma_cdiv_bounds};
+broadcast use {lemma_unfold_okp, lemma_smul_nonneg, lemma_tdiv_bounds, lemma_cdiv_bounds};
 
 impl SymExpr {
     //@extract kind=fn file=rten-shape-inference/src/sym_expr.rs within="impl SymExpr" name=is_positive vis=pub
@@ -251,9 +158,7 @@ impl SymExpr {
 
 pub mod code_range {
 use super::*;
-// (lemma_mul_nonneg is deliberately not in scope here: together with lemma_mul_box it sends
-// Z3's nonlinear matching past the resource limit)
-broadcast use {lemma_unfold, lemma_mul_box, lemma_tdiv_bounds, lemma_cdiv_bounds};
+broadcast use {lemma_unfold_okp, lemma_mul_box, lemma_tdiv_bounds, lemma_cdiv_bounds};
 
 impl SymExpr {
     //@extract kind=fn file=rten-shape-inference/src/sym_expr.rs within="impl SymExpr" name=range vis=pub
